@@ -405,6 +405,12 @@ JudgeNew(e) ==
      (IF ~mustRefuse /\ Has(e.in.shim, "slow_after_fail_ms") /\ ~VN!PromptExit(cfg, fin.s)
       THEN {D({"C12"}, "search_continued_after_entropy_failure", ToString(fin.s.late))} ELSE {}) \cup
      (IF ~bound THEN {D({"C18"}, "argv_not_rendering_of_command", "")} ELSE {}) \cup
+     \* a run under a schedule generated from MC_Vanity (Gen_C18sched): the process must be able to follow the
+     \* model's behaviour - the thread whose answer is next asks for it (or the process has exited)
+     (IF ~mustRefuse /\ Has(o, "diverged") /\ o.diverged # <<>>
+      THEN {D(props, IF o.diverged[1].kind = "O" THEN "alive_after_end_of_model_behaviour" ELSE "did_not_follow_model_schedule",
+              "step " \o ToString(o.diverged[1].pos) \o ", thread ordinal " \o ToString(o.diverged[1].ord))}
+      ELSE {}) \cup
      (IF crashed THEN
         (IF o.timeout /\ c.prefix # "" /\ Len(pre.nibbles) <= 3 /\ ~mustRefuse THEN {D({"C18"}, "vanity_search_did_not_terminate", "")}
          ELSE IF mustRefuse THEN {D(props, "cli_crash_instead_of_refusal", "")}
